@@ -815,6 +815,7 @@ Lemma disp_run_H fuel : forall d y d',
   match y with
   | DTask k => HI None d' /\ PS (Some k) d' /\ d_cur d' = Some k
   | DHold => HI None d' /\ d_cur d' = None /\ d_ready d' = [] /\ d_waiting d' <> []
+  | DStop => HI None d' /\ d_cur d' = None /\ d_ready d' = [] /\ d_waiting d' = []
   | _ => True end.
 Proof.
   induction fuel as [|fuel IH]; intros d y d' H P E; cbn [Dispatch.disp_run] in E.
@@ -835,8 +836,9 @@ Proof.
       destruct (next_from_torun_H _ _ _ _ H P Ecur En) as [P1 H1].
       destruct o as [x|].
       * eapply IH; [exact H1| |exact E]. apply (PS_q None d1); [reflexivity|exact P1].
-      * destruct H1 as (A & B & C & D). destruct (is_nil (d_waiting d1)) eqn:Ew; inversion E; subst; [exact I|].
-        split; auto. split; auto. split; [congruence|]. intros Ew'. rewrite Ew' in Ew. discriminate.
+      * destruct H1 as (A & B & C & D). destruct (is_nil (d_waiting d1)) eqn:Ew; inversion E; subst.
+        -- split; auto. split; auto. split; [congruence|]. apply is_nil_true. exact Ew.
+        -- split; auto. split; auto. split; [congruence|]. intros Ew'. rewrite Ew' in Ew. discriminate.
     + eapply IH; [| |exact E].
       * apply (HI_q None d); auto.
         -- intros w Hw. apply (h_wne _ _ H). exact Hw.
